@@ -31,6 +31,14 @@ def parseOp (t : String) : R HOp :=
 
 def baseOf (ch : Nat) : Nat := Gen.baseToBits.getD ch 0
 
+/-- what the iterator adaptors must deliver on the base list: count, nth(len-1), skip(len/2), step_by(3), last, nth(len) -/
+def itTxt (bs : List Nat) : String :=
+  let n := bs.length
+  let ob := fun (o : Option Nat) => match o with | some x => toString x | none => "-"
+  let sd := fun (l : List Nat) => if l.isEmpty then "-" else String.join (l.map toString)
+  let step3 := (bs.zipIdx.filter fun x => x.2 % 3 == 0).map (·.1)
+  s!"{n}:{ob bs.getLast?}:{sd (bs.drop (n / 2))}:{sd step3}:{ob bs.getLast?}:-"
+
 /-- the model: `none` = panic -/
 def runM (d : T) : HOp → Option T
   | .push b => push d b
@@ -106,7 +114,7 @@ def handle (args : List String) (impl : String) : R Ans :=
         let oth := (fromBytes (← resolve bs)).getD d
         let nd := if d.len == oth.len then (match ndiffs d oth with | some n => toString n | none => "panic") else "-"
         pure (";".intercalate tr.reverse ++
-          s!"|bytes={showNats bs} ascii={txt ((toAsciiVec d).getD [])} disp={txt ((display d).getD [])} rev={showNats (((reverse d).bind toBytes).getD [])} rc={showNats (((rc d).bind toBytes).getD [])} eqc={if d == canon then 1 else 0} hashc={if d == canon then 1 else 0} cmpc={ordStr (cmp d canon)} cmpo={ordStr (cmp d oth)} eqo={if d == oth then 1 else 0} nd={nd}")
+          s!"|bytes={showNats bs} ascii={txt ((toAsciiVec d).getD [])} disp={txt ((display d).getD [])} rev={showNats (((reverse d).bind toBytes).getD [])} rc={showNats (((rc d).bind toBytes).getD [])} eqc={if d == canon then 1 else 0} hashc={if d == canon then 1 else 0} cmpc={ordStr (cmp d canon)} cmpo={ordStr (cmp d oth)} eqo={if d == oth then 1 else 0} nd={nd} it={itTxt bs}")
     let verdict ← do
       if impl == "panic" then pure "FAIL:panic-in-range" else
       match impl.splitOn "|" with
@@ -123,8 +131,8 @@ def handle (args : List String) (impl : String) : R Ans :=
             else if ¬ invOk d then v := "FAIL:padding-or-block-count(eq/hash/ord would depend on history)"
         let other ← resolve spec
         let nd := if spec.length == other.length then toString (KSpec.hamming spec other) else "-"
-        let expect := s!"bytes={showNats spec} ascii={txt (KSpec.toText spec)} disp={txt (KSpec.toText spec)} rev={showNats spec.reverse} rc={showNats (KSpec.rc spec)} eqc=1 hashc=1 cmpc=eq cmpo={lexCmp spec other} eqo={if spec == other then 1 else 0} nd={nd}"
-        if v == "ok" ∧ tl ≠ expect then v := s!"FAIL:renderings/eq/hash/order-differ-from-vector(expected {expect})"
+        let expect := s!"bytes={showNats spec} ascii={txt (KSpec.toText spec)} disp={txt (KSpec.toText spec)} rev={showNats spec.reverse} rc={showNats (KSpec.rc spec)} eqc=1 hashc=1 cmpc=eq cmpo={lexCmp spec other} eqo={if spec == other then 1 else 0} nd={nd} it={itTxt spec}"
+        if v == "ok" ∧ tl ≠ expect then v := s!"FAIL:renderings/iteration/eq/hash/order-differ-from-vector(expected {expect})"
         pure v
       | _ => pure "FAIL:malformed-answer"
     pure { model, verdict }
